@@ -27,6 +27,14 @@ CHECKS = {
    text="RTO bound clause: rx_minrto <= rx_rto <= 60000 is preserved by update_ack for every rtt/srtt/rttvar (one merged path covering all values, including the rttvar<<2 overflow) and by Input of arbitrary datagrams at arbitrary clocks from arbitrary states; holds initially and after NoDelay with arbitrary arguments. Bounded symbolic model checking; the no-spurious-retransmission clause is claimed only as far as the harnesses listed in the evidence go.",
    note="Trusted: gse, solvers, INV_KCP (srtt, rttvar >= 0 is part of it and re-asserted).",
    design="§4 C18"),
+ "C07": dict(
+   text="Real fecEncoder.encode -> symbolic arrival sequence -> real fecDecoder.decode, with Reed-Solomon abstracted by its MDS contract: for every arrival sequence (all S^(d+1) sequences with duplicates, quick) of a group placed at 0, at the id wrap, across and at 2^31, as soon as d distinct packets arrived every missing data packet has been emitted byte-for-byte with its length (after the session's size filter), everything emitted equals an original data packet of the group, tuning is never triggered, and skipped or lost parity emits nothing and keeps ids aligned. The stub's pre-condition (every shard handed to the codec equals the encoder's shard in that slot incl. zero padding over unconstrained pool contents) is what makes a wrong slot index, a missing clear() or a wrong length visible. Bounded symbolic model checking under the codec contract.",
+   note="Trusted: gse, solvers, the codec contract (klauspost/reedsolomon arithmetic is not re-verified). Ratios up to (3,2) quick / (4,2) thorough, payloads 1..3 bytes.",
+   design="§4 C07"),
+ "C16": dict(
+   text="Stability and detection are one-step facts decided with a fully symbolic sequence id; the period detector is run on all presence patterns (0/1/2 copies of each of 3..6 consecutive ids), every phase, symbolic start id: it returns -1 or exactly the sender's ds/ps, and exactly ds, ps on clean windows of 2S+2 (fresh and wrapped ring); adoption installs the sender's ratio, consistent paws/caches, and a loss in the next group is recovered at positions 0, ~10^6 and 2^31. Bounded symbolic model checking.",
+   note="Trusted: gse, solvers, codec contract, insertion-sort model of sort.Slice. Small ratios only (d+p <= 6); the 258+2(d+p) bound is not decided for large d+p.",
+   design="§4 C16"),
 }
 
 NOT_APPLICABLE = {}
